@@ -1,6 +1,7 @@
 package flood
 
 import (
+	"sync"
 	"fmt"
 	"net"
 	"reflect"
@@ -35,6 +36,7 @@ type vpFrame struct {
 }
 
 type vpSim struct {
+	mu    sync.Mutex // guards the observation fields when deliveries run concurrently (C11 concurrent part)
 	nodes   []*vpNode
 	adj     map[[2]int]bool      // undirected, stored both ways
 	queues  map[[2]int][]vpFrame // directed from->to
@@ -129,6 +131,8 @@ func (n *vpNode) GetPeerIDs() []identity.AgentID {
 
 func (n *vpNode) SendToPeer(peerID identity.AgentID, f *protocol.Frame) error {
 	s := n.sim
+	s.mu.Lock()
+	defer s.mu.Unlock()
 	j := s.idx(peerID)
 	if j < 0 || !s.adj[[2]int{n.idx, j}] {
 		return fmt.Errorf("vpsim: peer not connected")
